@@ -20,6 +20,7 @@ const (
 	hexValNum       = 10
 	metaSeqLength   = 6
 	setDirectiveLen = 4
+	maxIncludeDepth = 16
 )
 
 // Parser is a inputrc parser.
@@ -32,6 +33,7 @@ type Parser struct {
 	mode      string
 	keymap    string
 	line      int
+	depth     int
 	conds     []bool
 	errs      []error
 }
@@ -357,6 +359,17 @@ func (p *Parser) do(handler Handler, keyword, val string) error {
 			return nil
 		}
 
+		// A file that includes itself (directly or not) must not
+		// make us recurse until the stack is exhausted.
+		if p.depth >= maxIncludeDepth {
+			return &ParseError{
+				Name: p.name,
+				Line: p.line,
+				Text: "$include " + val,
+				Err:  ErrIncludeDepth,
+			}
+		}
+
 		path := expandIncludePath(val)
 		buf, err := handler.ReadFile(path)
 
@@ -367,7 +380,7 @@ func (p *Parser) do(handler Handler, keyword, val string) error {
 			return err
 		}
 
-		return Parse(bytes.NewReader(buf), handler, WithName(val), WithApp(p.app), WithTerm(p.term), WithMode(p.mode))
+		return Parse(bytes.NewReader(buf), handler, WithName(val), WithApp(p.app), WithTerm(p.term), WithMode(p.mode), withDepth(p.depth+1))
 	}
 
 	if !p.conds[len(p.conds)-1] {
@@ -428,6 +441,13 @@ func WithTerm(term string) Option {
 func WithMode(mode string) Option {
 	return func(p *Parser) {
 		p.mode = mode
+	}
+}
+
+// withDepth is a parser option to set the current $include nesting depth.
+func withDepth(depth int) Option {
+	return func(p *Parser) {
+		p.depth = depth
 	}
 }
 
